@@ -1065,4 +1065,62 @@ impl World<Tok> {
         }
         self.install(out, &op, dst, res, Ok(want));
     }
+
+    /// `eq a b` (Tok equality compares payloads)
+    pub fn eq(&mut self, out: &mut Out, a: usize, b: usize) -> Option<bool> {
+        let op = format!("eq {a} {b}");
+        out.announce(&op);
+        let res = catch(|| self.regs[a].as_ref().unwrap() == self.regs[b].as_ref().unwrap());
+        let (_, ra) = self.refs[a].as_ref().unwrap();
+        let (_, rb) = self.refs[b].as_ref().unwrap();
+        let want = (ra.nrows, ra.ncols) == (rb.nrows, rb.ncols) && (ra.nrows == 0 || ra.ncols == 0 || ra.rows == rb.rows);
+        match res {
+            None => { out.oracle_fail(&format!("{op}: comparison panicked")); out.observe("panic"); None }
+            Some(v) => {
+                if v != want {
+                    out.oracle_fail(&format!("{op}: == returned {v} for matrices that are logically {}", if want { "equal" } else { "different" }));
+                }
+                out.count(if v { "eq:true" } else { "eq:false" });
+                out.observe(&format!("ok {v}"));
+                Some(v)
+            }
+        }
+    }
+
+    pub fn display(&mut self, out: &mut Out, r: usize) -> Option<String> {
+        let op = format!("display {r}");
+        out.announce(&op);
+        let res = catch(|| format!("{}", self.regs[r].as_ref().unwrap()));
+        match res {
+            None => { out.oracle_fail(&format!("{op}: Display panicked")); out.observe("panic"); None }
+            Some(t) => {
+                out.observe(&format!("ok {}", t.replace('\\', "\\\\").replace('\n', "\\n").replace('\r', "\\r").replace('\t', "\\t")));
+                Some(t)
+            }
+        }
+    }
+
+    /// logical view through get(): extents and rows
+    pub fn lview(&mut self, out: &mut Out, r: usize) -> String {
+        let op = format!("lview {r}");
+        out.announce(&op);
+        let m = self.regs[r].as_ref().unwrap();
+        let rows: Vec<String> = (0..m.nrows()).map(|i| (0..m.ncols()).map(|j| m.get((i, j)).map(|e| e.val.clone()).unwrap_or("?".into())).collect::<Vec<_>>().join(";")).collect();
+        let s = format!("lv {}x{} [{}]", m.nrows(), m.ncols(), rows.join(","));
+        out.observe(&s);
+        s
+    }
+
+    /// `clone dst a`: Matrix::clone (every element cloned: primes)
+    pub fn clone_reg(&mut self, out: &mut Out, dst: usize, a: usize) {
+        let op = format!("clone {dst} {a}");
+        out.announce(&op);
+        let m = self.regs[a].as_ref().unwrap().clone();
+        let (o, rf) = self.refs[a].clone().unwrap();
+        let want = Ref { nrows: rf.nrows, ncols: rf.ncols, rows: rf.rows.iter().map(|r| r.iter().map(|e| format!("{e}'")).collect()).collect() };
+        out.observe(&format!("ok | {}", st_str(&m)));
+        self.regs[dst] = Some(m);
+        self.refs[dst] = Some((o, want));
+        self.check_reg(out, dst, &op);
+    }
 }
